@@ -114,3 +114,18 @@ def text_like_bytes(rng, n):
     if k == 4:
         return (b"0123456789ABCDEF" * (n // 16 + 1))[:n]
     return bytes(rng.randrange(32, 127) for _ in range(n))
+
+
+def kcv_colliding_pair(rng, size, nbytes=2):
+    """two DIFFERENT DES/TDES keys of `size` bytes whose key check values (leftmost nbytes of E_k(0)) are equal: code that
+    decides 'same key' through a KCV or another short digest treats them as one key.  Birthday search with the
+    independent single-block oracle."""
+    from harness import oracles as o
+    seen = {}
+    for _ in range(200000):
+        k = rng.randbytes(size)
+        kcv = o.E("des", k, bytes(8))[:nbytes]
+        if kcv in seen and seen[kcv] != k:
+            return seen[kcv], k
+        seen[kcv] = k
+    return None
